@@ -850,6 +850,8 @@ type c10Run struct {
 	seen   map[string]map[string]struct{}
 	keys   map[string]struct{}
 	evals  int
+	// prevValue: per type, the value encoded last by this worker (for the aliasing check)
+	prevValue map[string]any
 }
 
 func c10NewRun(rep *vk.Report) *c10Run {
@@ -1395,6 +1397,27 @@ func c10ValueRoundTrip(rep *c10Run, d *c10Decoder, v any) []byte {
 	if mo.err != nil {
 		rep.Violation("roundtrip/"+d.name+"/encode-error", "encoding a well-formed value failed: "+mo.err.Error(), wit(nil))
 		return nil
+	}
+	// a text handed out by MarshalJSON stays what it was while other values of the same type
+	// are encoded (it is not a view of a buffer that the next encode reuses)
+	if mj, ok := v.(json.Marshaler); ok {
+		if t1, err := mj.MarshalJSON(); err == nil {
+			keep := append([]byte{}, t1...)
+			if prev, ok := rep.prevValue[d.name]; ok {
+				if pm, ok := prev.(json.Marshaler); ok {
+					pm.MarshalJSON()
+					pm.MarshalJSON()
+				}
+			}
+			if !bytes.Equal(t1, keep) {
+				rep.Violation("roundtrip/"+d.name+"/encoded-text-changed-later", "the bytes returned by MarshalJSON changed when another value of the type was encoded afterwards", wit(map[string]any{"returned": c10Clip(string(keep)), "now": c10Clip(string(t1))}))
+			}
+			rep.Count("encodings_checked_for_aliasing", 1)
+		}
+		if rep.prevValue == nil {
+			rep.prevValue = map[string]any{}
+		}
+		rep.prevValue[d.name] = v
 	}
 	// the value form must encode like the pointer form (MarshalJSON has value receivers)
 	if enc2, mo2 := c10Marshal(reflect.ValueOf(v).Elem().Interface()); mo2.pan != nil || mo2.err != nil {
